@@ -412,6 +412,9 @@ def pcase_lits(c, d, r, flit, fmat_lit, seq_lit, coq_bool, default_jitter=1e-6):
     if f32:
         jit = float(torch.tensor(jit, dtype=torch.float32))
     L = qq.shape[0]
+    if not (bool(torch.isfinite(qq).all()) and bool(torch.isfinite(tt).all())):
+        # NaN from a first-step breakdown (known finding): torch.min / eigh on NaN are not what the model describes
+        return out, sc, hc
     obs = {}
     if c["api"] == "root_inv_multi" and rec.post:
         obs["inv"] = _lead(rec.post[-1][0], n, m)
